@@ -537,6 +537,21 @@ def r13(ck, F):
             ck.bad("C13.R13", key, where(b.raw["sp"]), "the stored text is shortened or replaced (%s)" % (shrink or "assignment to .fields"), fn=b.path)
         else:
             ck.ok("C13.R13", key, fn=b.path)
+        # ... separated from what is already there: a separator is pushed exactly when the stored text is non-empty
+        rows = {}
+        for pth in PathEval(b).run():
+            if pth.end != "return":
+                continue
+            e = [c[1] for c in pth.conds if show(c[0]).startswith("is_empty(") and ".fields" in show(c[0])]
+            if e:
+                rows[e[0] != 0] = any(c[1].get("method") in ("push", "push_str", "write_char", "write_str") for c in pth.calls)
+        if rows:
+            k2 = "%s separates the new fields from the stored ones exactly when there are stored ones" % nm
+            if rows.get(False) is True and rows.get(True) is False:
+                ck.ok("C13.R13", k2, fn=b.path)
+            else:
+                ck.bad("C13.R13", k2, where(b.raw["sp"]), "separator pushed: %s (keyed by `stored text is empty`): fields recorded later run into the ones recorded earlier "
+                       "(`a=1b=2`), or a fresh span's fields start with a blank" % rows, fn=b.path)
 
 
 def r14(ck, F):
